@@ -660,6 +660,11 @@ void phpy_set_index_permutation_symmetry_compact_fc(
                         m = i_p * n_satom * 9 + j * 9 + k * 3 + l;
                         n = j_p * n_satom * 9 + i_trans * 9 + l * 3 + k;
                         if (is_transpose) {
+                            /* Off-diagonal block paired with itself: */
+                            /* swap each (k,l), (l,k) pair only once. */
+                            if (i != j && j_p == i_p && i_trans == j && l < k) {
+                                continue;
+                            }
                             fc_elem = fc[m];
                             fc[m] = fc[n];
                             fc[n] = fc_elem;
